@@ -360,6 +360,9 @@ func checkC16(c c16Case, ctx *vCtx) *vFailure {
 			return vFailSig(c16Sig(c), "%s: stats failed: %s", desc, st.err)
 		}
 		so := vReadStats(st.out)
+		if so.First != vFmtDay(41, layout) || so.Last != vFmtDay(43, layout) || so.LogRecords != "2" {
+			return vFailSig(c16Sig(c), "%s: stats shows first/last record %q / %q (%s records), the log has 2 records dated %s and %s in the format chosen by %s", desc, so.First, so.Last, so.LogRecords, vFmtDay(41, layout), vFmtDay(43, layout), fmtLevel)
+		}
 		switch todayLevel {
 		case "flag":
 			if so.Today != vFmtDay(40+todayIdx, layout) {
